@@ -1682,3 +1682,153 @@ func init() {
 		return nil
 	}
 }
+
+// ---------- encoding/json decoder model ----------
+// The JSON text is not parsed. A harness queues the values the decoder is to produce
+// (vJSONQueue(v)); Decode stores the next queued value into its target (types must match) and
+// reports io.EOF when the queue is empty; NewDecoder on a (re)sought reader refills the queue
+// for the next pass (vJSONPasses). Token() answers '[' or '{' as the harness declared.
+
+func init() {
+	I := intrinsics
+	harnessPrims["vJSONQueue"] = func(m *Machine, fr *frame, fn *ssa.Function, a []Value) Value {
+		q, _ := m.ghost["jsonq"].(tuple)
+		m.ghost["jsonq"] = append(append(tuple{}, q...), a[0])
+		all, _ := m.ghost["jsonall"].(tuple)
+		m.ghost["jsonall"] = append(append(tuple{}, all...), a[0])
+		return nil
+	}
+	harnessPrims["vJSONArray"] = func(m *Machine, fr *frame, fn *ssa.Function, a []Value) Value {
+		m.ghost["jsonarray"] = a[0]
+		return nil
+	}
+	I["encoding/json.NewDecoder"] = func(m *Machine, fr *frame, fn *ssa.Function, a []Value) Value {
+		pt := fn.Signature.Results().At(0).Type()
+		obj := new(Value)
+		*obj = zero(deref(pt))
+		// a new decoder over the (re-sought) file sees the whole content again
+		if all, ok := m.ghost["jsonall"].(tuple); ok {
+			m.ghost["jsonq"] = append(tuple{}, all...)
+		}
+		return obj
+	}
+	I["(*encoding/json.Decoder).Decode"] = func(m *Machine, fr *frame, fn *ssa.Function, a []Value) Value {
+		q, _ := m.ghost["jsonq"].(tuple)
+		if len(q) == 0 {
+			ioPkg := m.eng.prog.ImportedPackage("io")
+			return *m.globalAddr(ioPkg.Var("EOF"))
+		}
+		next := q[0].(Iface)
+		m.ghost["jsonq"] = q[1:]
+		tgt, ok := a[1].(Iface)
+		if !ok || tgt.T == nil {
+			m.unsupported("json.Decode into nil")
+		}
+		pt, isPtr := tgt.T.Underlying().(*types.Pointer)
+		if !isPtr || !types.Identical(pt.Elem(), next.T) {
+			m.unsupported("json model: queued value of type %v does not fit target %v", next.T, tgt.T)
+		}
+		store(tgt.V.(*Value), copyVal(next.V))
+		return Iface{}
+	}
+	I["(*encoding/json.Decoder).Token"] = func(m *Machine, fr *frame, fn *ssa.Function, a []Value) Value {
+		jp := m.eng.prog.ImportedPackage("encoding/json")
+		ch := int64('{')
+		if t, ok := m.ghost["jsonarray"].(*Term); ok && t.IsConst() && t.bv {
+			ch = '['
+		}
+		return tuple{Iface{T: jp.Type("Delim").Type(), V: mkInt64(ch)}, Iface{}}
+	}
+	I["(*encoding/json.Decoder).More"] = func(m *Machine, fr *frame, fn *ssa.Function, a []Value) Value {
+		q, _ := m.ghost["jsonq"].(tuple)
+		return mkBool(len(q) > 0)
+	}
+}
+
+// ---------- jsoniter.Stream model (contract: an append-only buffer in front of a writer) ----------
+// WriteVal appends one opaque JSON value of the length the harness chose (vJSONValueLen),
+// without newline; Buffered is the number of bytes not yet flushed; Flush writes them to the
+// underlying writer. The reflection-based encoding itself is outside the model.
+
+type jsonStreamState struct {
+	out Iface
+	buf []Value
+}
+
+func (m *Machine) jsonStreamOf(p *Value) *jsonStreamState {
+	if s, ok := m.side[p]; ok {
+		return s.(*jsonStreamState)
+	}
+	s := &jsonStreamState{}
+	m.side[p] = s
+	return s
+}
+
+func init() {
+	I := intrinsics
+	harnessPrims["vJSONValueLen"] = func(m *Machine, fr *frame, fn *ssa.Function, a []Value) Value {
+		m.ghost["jsonvallen"] = a[0]
+		return nil
+	}
+	I["(github.com/json-iterator/go.Config).Froze"] = func(m *Machine, fr *frame, fn *ssa.Function, a []Value) Value {
+		pkg := m.eng.prog.ImportedPackage("github.com/json-iterator/go")
+		obj := new(Value)
+		*obj = zero(pkg.Type("frozenConfig").Type())
+		return Iface{T: types.NewPointer(pkg.Type("frozenConfig").Type()), V: obj}
+	}
+	I["github.com/json-iterator/go.NewStream"] = func(m *Machine, fr *frame, fn *ssa.Function, a []Value) Value {
+		pt := fn.Signature.Results().At(0).Type()
+		obj := new(Value)
+		*obj = zero(deref(pt))
+		st := m.jsonStreamOf(obj)
+		st.out, _ = a[1].(Iface)
+		return obj
+	}
+	I["(*github.com/json-iterator/go.Stream).WriteVal"] = func(m *Machine, fr *frame, fn *ssa.Function, a []Value) Value {
+		st := m.jsonStreamOf(a[0].(*Value))
+		n := 8
+		if t, ok := m.ghost["jsonvallen"].(*Term); ok && t.IsConst() {
+			n = int(t.Int64())
+		}
+		if n < 2 {
+			n = 2
+		}
+		st.buf = append(st.buf, byteTerm('{'))
+		for i := 0; i < n-2; i++ {
+			st.buf = append(st.buf, byteTerm(' '))
+		}
+		st.buf = append(st.buf, byteTerm('}'))
+		return nil
+	}
+	I["(*github.com/json-iterator/go.Stream).WriteRaw"] = func(m *Machine, fr *frame, fn *ssa.Function, a []Value) Value {
+		st := m.jsonStreamOf(a[0].(*Value))
+		s := a[1].(Str)
+		for i := 0; i < s.Len(); i++ {
+			st.buf = append(st.buf, s.At(i))
+		}
+		return nil
+	}
+	I["(*github.com/json-iterator/go.Stream).Buffered"] = func(m *Machine, fr *frame, fn *ssa.Function, a []Value) Value {
+		return mkInt64(int64(len(m.jsonStreamOf(a[0].(*Value)).buf)))
+	}
+	I["(*github.com/json-iterator/go.Stream).Flush"] = func(m *Machine, fr *frame, fn *ssa.Function, a []Value) Value {
+		st := m.jsonStreamOf(a[0].(*Value))
+		if st.out.T == nil || len(st.buf) == 0 {
+			st.buf = nil
+			return Iface{}
+		}
+		f := m.findMethod(st.out, "Write")
+		if f == nil {
+			m.unsupported("jsoniter stream over a writer without Write")
+		}
+		buf := st.buf
+		st.buf = nil
+		r := m.call(fr, 0, f, []Value{st.out.V, sliceV{a: buf, len: len(buf), cap: len(buf)}}, nil)
+		if tp, ok := r.(tuple); ok && len(tp) == 2 {
+			if e, ok := tp[1].(Iface); ok {
+				return e
+			}
+		}
+		return Iface{}
+	}
+}
